@@ -8,16 +8,17 @@ REGISTRY = {
                 'over a 14-letter alphabet {tick, 5 motion shapes, 4 non-motion commands, unit status frame, unit address-claim/software-id frame, '
                 'config/actuator frame addressed to the unit, foreign frame} with values from the seeded PRNG, plus random histories of length 5..205; '
                 'frames emitted by every event compared with the extracted model; C01 predicate (every tick re-sends exactly the latest motion, stop-all => only the lock frame) evaluated on the real frames; '
-                'non-trivial = a movable motion command followed later by a tick; distinct by case text',
+                'plus 600 (quick) / 6000 (thorough) scripts through the real NetworkAuthority on the emulated bus (one hydraulic unit; setup, cycles, motion and other commands, unit status / claim frames, and motion commands ACCEPTED WHILE EVERY SOCKET WRITE FAILS - hub socket connect()ed away, EPERM): frames per event compared with the authority model, C01 predicate on the real frames with "latest" = latest accepted; '
+                'non-trivial = a movable motion command (or a failed stop-all) followed later by a tick; distinct by case text',
         'exhaustive': {'quick': False, 'thorough': False},
-        'level_text': 'Theorems C01, C01_reassert (for ANY finite history the tick output is the encoding of the latest motion command, stop-all before any), '
+        'level_text': 'Theorems C01_authority_register / C01_authority_reasserts (NetworkAuthority model, ANY driver list, ANY history of cycles, accepted commands with or without a successful socket write, received frames, waits: every hydraulic-unit driver re-sends on the next cycle exactly the latest accepted motion command), C01, C01_reassert (for ANY finite history the tick output is the encoding of the latest motion command, stop-all before any), '
                       'C01_inert (non-motion commands and every received frame leave the re-asserted command unchanged) are proved by induction over histories of '
                       'arbitrary length about the Gallina model of the HCU driver; the model is tied to the real driver by differential execution of enumerated and random histories.',
         'level_note': 'partial on schedules: every handler of the HCU driver makes exactly one access to the shared context (a mutex-protected critical section), so each interleaving '
                       'of the receive/tick/command tasks is equivalent to a sequential history ordered by those accesses; the theorem is over sequential histories and the real code is driven at handler granularity. '
                       'Trusted: Coq kernel, extraction, drv.ml, harness.',
         'technique': 'Rocq proof (invariant by induction over event histories) + model/implementation correspondence on enumerated and random histories',
-        'explanation': 'C01 + C01_reassert + C01_inert; C02 predicate reused as the meaning of "exactly that motion command"',
+        'explanation': 'C01 + C01_reassert + C01_inert + C01_authority_register + C01_authority_reasserts; C02 predicate reused as the meaning of "exactly that motion command"',
         'assumptions': ['received frames are 8 bytes (normalised by the network layer, C06/C17)',
                         'interleavings below handler granularity are argued from the single-access shape of the handlers, not executed'],
         'trusted': ['modelled, not verified: Rust semantics of HydraulicControlUnit::{trigger,tick,try_recv}; HashMap collect (last duplicate wins); crate j1939 IdBuilder/FrameBuilder'],
